@@ -32,7 +32,7 @@ PARTIAL = ['C18_float_rational_partial: the float parser is proved to compute th
            'the rounding error of its double-precision evaluation is tested (<= 4 ulp), not proved',
            'C18_format_canonical is proved for the repaired width function (notes/C18.fix-1.diff); for the pinned '
            'code it is refuted (C18_format_pinned_refuted) and proved below 10^15-2 (C18_format_pinned_partial)']
-PER_FILE = 24
+PER_FILE = 16
 I64MAX = 2 ** 63 - 1
 I64MIN = -2 ** 63
 FMT_INT, PARSE_INT, FMT_LIST, PARSE_LIST, PARSE_FLOAT, FMT_FLOAT = range(6)
@@ -186,8 +186,11 @@ def generate(tier, seed):
     texts = ['0', '-0', '+0', '000', '007', '-007', '+007', '0000000000000000000001', '-00000000000000000000012',
              '9223372036854775807', '-9223372036854775808', '+9223372036854775807', '00009223372036854775807']
     cases.append(_mk(PARSE_INT, texts, [[0, list(range(len(texts)))], [1, list(range(len(texts)))]] + [[0, [i]] for i in range(len(texts))]))
+    # a column with '+' but no '-' (the sign test of the file reader), and one with '-' but no '+'
+    for texts in (['+5', '12', '007', '+0'], ['-5', '12', '007', '-0']):
+        cases.append(_mk(PARSE_INT, texts, [[1, [0, 1, 2, 3]], [0, [0, 1, 2, 3]], [1, [1, 2]], [1, [3, 0]]]))
     # ---- small mixed batches with every ordered sub-batch
-    n_small = 30 if quick else 300
+    n_small = 24 if quick else 150
     for i in range(n_small):
         m = rng.choice([2, 3, 4, 4])
         widths = rng.sample(range(1, 20), m)
@@ -196,7 +199,7 @@ def generate(tier, seed):
         texts = [_int_text(rng, _rand_int(rng, w)) for w in rng.sample(range(1, 20), m)]
         cases.append(_mk(PARSE_INT, texts, _all_runs(m) + [[1, list(range(m))]]))
     # ---- larger mixed batches
-    n_big = 30 if quick else 300
+    n_big = 20 if quick else 120
     for i in range(n_big):
         m = rng.randint(5, 24)
         vals = [_rand_int(rng) for _ in range(m)]
@@ -205,13 +208,23 @@ def generate(tier, seed):
         texts = [_int_text(rng, _rand_int(rng, signed=signed), fancy=signed) for _ in range(m)]
         cases.append(_mk(PARSE_INT, texts, _some_runs(m, rng, [0, 1, 2])))
     # ---- integer lists
-    n_list = 40 if quick else 400
+    n_list = 24 if quick else 150
     for i in range(n_list):
         m = rng.randint(1, 4) if i % 2 == 0 else rng.randint(5, 10)
         rows = [[_rand_int(rng) for _ in range(rng.randint(1, 5))] for _ in range(m)]
         runs = (_all_runs(m) if m <= 3 else _some_runs(m, rng, [0])) + [[1, list(range(m))]]
         cases.append(_mk(FMT_LIST, rows, runs))
-        trows = [','.join(_int_text(rng, _rand_int(rng)) for _ in range(rng.randint(1, 5))) for _ in range(m)]
+        lo = 0 if i % 4 == 3 else 1        # every fourth batch may contain empty lists
+        if lo == 0:
+            rows = [r if rng.random() < 0.7 else [] for r in rows]
+            if not any(rows):
+                rows[0] = [7]
+            # a batch consisting only of empty lists is outside the property (ints_to_strings([]) raises IndexError)
+            runs = [r for r in runs if any(rows[j] for j in r[1])]
+            cases[-1] = _mk(FMT_LIST, rows, runs)
+        trows = [','.join(_int_text(rng, _rand_int(rng)) for _ in range(rng.randint(lo, 5))) for _ in range(m)]
+        if not any(trows):
+            trows[-1] = '5'
         truns = [[1, list(range(m))], [3, list(range(m))], [1, list(range(m))[::-1]]] + [[1, [j]] for j in range(min(m, 4))]
         cases.append(_mk(PARSE_LIST, trows, truns))
     # ---- float texts
@@ -219,7 +232,7 @@ def generate(tier, seed):
              '1.5e-3', '-1.25e+10', '1e300', '1e-300', '12345678901234567', '1.2345678901234567', '12345678901234567e-17',
              '9007199254740993', '1e22', '1e23', '123456789012345.67e300', '0.000001', '100000000000000000000']
     cases.append(_mk(PARSE_FLOAT, fixed, [[0, list(range(len(fixed)))], [1, list(range(len(fixed)))]] + [[0, [i]] for i in range(len(fixed))]))
-    n_float = 60 if quick else 600
+    n_float = 40 if quick else 300
     for i in range(n_float):
         m = rng.choice([1, 2, 3, 4]) if i % 2 == 0 else rng.randint(5, 16)
         texts = []
@@ -230,7 +243,7 @@ def generate(tier, seed):
         runs = (_all_runs(m) if m <= 3 else _some_runs(m, rng, [0])) + [[1, list(range(m))]]
         cases.append(_mk(PARSE_FLOAT, texts, runs))
     # ---- doubles: format, then parse back
-    n_dbl = 40 if quick else 400
+    n_dbl = 30 if quick else 200
     for i in range(n_dbl):
         m = rng.randint(1, 4) if i % 2 == 0 else rng.randint(5, 12)
         xs = [d2b(_rand_double(rng)) for _ in range(m)]
@@ -471,6 +484,18 @@ def _pinned_width_defect(n, text):
     return k in CARRY and CARRY[k] <= a and text == ('-' if n < 0 else '') + '0' + str(a)
 
 
+def _pinned_list_regroup(sel):
+    """what the pinned list-column parser returns: all numbers of the column in order, cut into rows by the
+    number of separators (= items + 1 per row, also for an empty field)"""
+    flat = [int(p) for r in sel for p in r.split(',') if p]
+    out, k = [], 0
+    for r in sel:
+        n = r.count(',') + 1
+        out.append(flat[k:k + n])
+        k += n
+    return out
+
+
 def _bad_rows(case, o):
     """(row, out) pairs that violate the per-row property, by an independent Python reading of it; None if a run raised"""
     kind = case['kind']
@@ -486,7 +511,7 @@ def _bad_rows(case, o):
                 bad.append((row, x))
             elif kind == PARSE_INT and x != int(row):
                 bad.append((row, x))
-            elif kind == PARSE_LIST and x != [int(p) for p in row.split(',')]:
+            elif kind == PARSE_LIST and x != ([int(p) for p in row.split(',')] if row else []):
                 bad.append((row, x))
             elif kind == PARSE_FLOAT and abs(_ord(x) - _ord(d2b(float(row)))) > 0:
                 bad.append((row, x))
@@ -522,6 +547,17 @@ def finding(case, o):
                     return None
             return 'C18-float-plus-sign'
         return None
+    if kind == PARSE_LIST:
+        # an empty list in the column: rows are regrouped by separator count, so later values move up a row
+        if bad is None or not bad:
+            return None
+        for (route, idx), out in zip(case['runs'], o['runs']):
+            sel = [case['rows'][i] for i in idx]
+            if out != _pinned_list_regroup(sel):
+                return None
+            if out != [[int(p) for p in r.split(',')] if r else [] for r in sel] and '' not in sel:
+                return None
+        return 'C18-empty-list-row-shift'
     if kind == FMT_FLOAT:
         # format-then-parse is off by a few ulp for doubles whose shortest text has an exponent or whose digits
         # (point removed) form an integer >= 2^53 -- the two places where the double evaluation rounds
